@@ -1,6 +1,6 @@
-// Shared machinery of the C12 harness (c12_chrono.cpp): etl::chrono duration / time_point
-// arithmetic, comparison, conversion and rounding casts against (1) std::chrono on the same
-// inputs and (2) exact rational arithmetic in __int128.
+// Shared machinery of the C12 harness (c12_chrono.cpp, c12_wide.cpp): etl::chrono duration /
+// time_point arithmetic, comparison, conversion and rounding casts against (1) std::chrono on
+// the same inputs and (2) exact rational arithmetic in __int128.
 //
 // Structure: every operation is instantiated once for tetl and once for libstdc++ from ONE
 // template (pair_op<L,...> / self_op<L,...>, L = EtlL or StdL), so that both sides execute
@@ -9,9 +9,11 @@
 // "is the exact result and every intermediate the standard prescribes representable", the
 // exact model, classification, reporting - is ordinary non-template code in this header.
 //
-// Carrier: an operand is a V {i64, double}; a result is an Out {2 x i64, 2 x double, ok}.
-// `ok == false` means "this library has no such overload" (API gap, decided by a
-// requires-expression), never a violation.
+// Reps (round 2): int8/16/32/64_t, uint32/64_t, float, double, long double.
+// Carrier: an operand is a V {i64, long double} (uint64_t counts travel as their bit pattern,
+// a floating operand is always exactly representable in the rep it is meant for); a result is
+// an Out {2 x i64, 2 x long double, ok}.  `ok == false` means "this library has no such
+// overload" (API gap, decided by a requires-expression), never a violation.
 #pragma once
 
 #include "mc.hpp"
@@ -22,6 +24,7 @@
 
 #include <chrono>
 #include <cstdint>
+#include <cmath>
 #include <cstring>
 #include <limits>
 #include <ratio>
@@ -35,6 +38,10 @@ using i128 = __int128;
 using u128 = unsigned __int128;
 using i64  = std::int64_t;
 using i32  = std::int32_t;
+using i16  = std::int16_t;
+using i8   = std::int8_t;
+using u32  = std::uint32_t;
+using u64  = std::uint64_t;
 
 // ---------------------------------------------------------------------------------------
 // periods
@@ -42,18 +49,23 @@ using i32  = std::int32_t;
 
 struct PeriodInfo {
     char const* name;
-    i64 num, den;
+    i64 num, den; // in lowest terms (what duration::period names)
 };
+
+constexpr i64 cx_gcd(i64 a, i64 b) { return b == 0 ? a : cx_gcd(b, a % b); }
 
 template <int I>
 struct P;
 
+// N/D as written at the source level (ratio<2,4> stays ratio<2,4> in the duration's template
+// argument); info holds the reduced value
 #define C12_PERIOD(I, NAME, N, D)                                                                                      \
     template <>                                                                                                        \
     struct P<I> {                                                                                                      \
         using e = etl::ratio<N, D>;                                                                                    \
         using s = std::ratio<N, D>;                                                                                    \
-        static constexpr PeriodInfo info{NAME, N, D};                                                                  \
+        static constexpr PeriodInfo info{NAME, (N) / cx_gcd(N, D), (D) / cx_gcd(N, D)};                                \
+        static constexpr bool lowest = cx_gcd(N, D) == 1; /* as written */                                             \
     };
 C12_PERIOD(0, "nano", 1, 1000000000)
 C12_PERIOD(1, "micro", 1, 1000000)
@@ -65,64 +77,152 @@ C12_PERIOD(6, "ratio<86400>", 86400, 1)
 C12_PERIOD(7, "ratio<1,3>", 1, 3)
 C12_PERIOD(8, "ratio<5,7>", 5, 7)
 C12_PERIOD(9, "ratio<1001,30000>", 1001, 30000)
+// round 2 (c12_wide.cpp): SI extremes, ratios not in lowest terms, two large coprime terms
+C12_PERIOD(10, "atto", 1, 1000000000000000000)
+C12_PERIOD(11, "femto", 1, 1000000000000000)
+C12_PERIOD(12, "pico", 1, 1000000000000)
+C12_PERIOD(13, "kilo", 1000, 1)
+C12_PERIOD(14, "mega", 1000000, 1)
+C12_PERIOD(15, "giga", 1000000000, 1)
+C12_PERIOD(16, "tera", 1000000000000, 1)
+C12_PERIOD(17, "peta", 1000000000000000, 1)
+C12_PERIOD(18, "exa", 1000000000000000000, 1)
+C12_PERIOD(19, "ratio<2,4>", 2, 4)
+C12_PERIOD(20, "ratio<10,4>", 10, 4)
+C12_PERIOD(21, "ratio<1000000007,998244353>", 1000000007, 998244353)
 #undef C12_PERIOD
 
-inline constexpr int n_periods = 10;
+inline constexpr int n_periods = 22;
 
 inline PeriodInfo period_info(int i)
 {
     static PeriodInfo const t[n_periods] = {P<0>::info, P<1>::info, P<2>::info, P<3>::info, P<4>::info, P<5>::info,
-        P<6>::info, P<7>::info, P<8>::info, P<9>::info};
+        P<6>::info, P<7>::info, P<8>::info, P<9>::info, P<10>::info, P<11>::info, P<12>::info, P<13>::info, P<14>::info,
+        P<15>::info, P<16>::info, P<17>::info, P<18>::info, P<19>::info, P<20>::info, P<21>::info};
     return t[i];
 }
+
+/// Is the quotient of period I by the periods of days, weeks, months and years representable
+/// in intmax_t?  Where it is not (atto, femto, pico), [time.duration.cons] says the converting
+/// constructor duration<P<I>> -> years does not take part in overload resolution ("no overflow
+/// is induced in the conversion").  The pinned tetl evaluates ratio_divide in the constraint
+/// instead, a hard error, so that the plain expression d + d - whose candidate set contains
+/// operator+(years, year), operator+(months, month), operator+(days, day) ... - does not compile
+/// for such a period.  That is probed with the compiler at run time (c12_wide.cpp, jobs
+/// compile-probes/*, where it is a violation); the sweeps call operator+ with an explicit template
+/// argument for these periods (no non-template candidates, same function) and skip round<To>,
+/// whose body contains To + To.
+/// Likewise P<I>::lowest: for a period argument that is not in lowest terms (ratio<2,4>) the
+/// pinned round<To> and abs do not compile (they mix To with common_type_t<To,To>, which names
+/// the reduced period); compile-probed, skipped in the sweeps.
+template <int I>
+struct CalendarSafe {
+    static constexpr bool fits(i64 q)
+    {
+        i128 const g = cx_gcd(P<I>::info.num, q);
+        return i128(P<I>::info.den) * (q / i64(g)) <= i128(std::numeric_limits<i64>::max());
+    }
+    static constexpr bool value = fits(86400) && fits(604800) && fits(2629746) && fits(31556952);
+};
 
 // ---------------------------------------------------------------------------------------
 // carrier
 // ---------------------------------------------------------------------------------------
 
-enum class Rep : int { i32 = 0, i64 = 1, f64 = 2 };
+enum class Rep : int { i8 = 0, i16, i32, i64, u32, u64, f32, f64, f80, other };
+
+using f80 = long double;
 
 template <typename R>
 constexpr Rep rep_kind()
 {
-    if constexpr (std::is_same_v<R, i32>) {
-        return Rep::i32;
-    } else if constexpr (std::is_same_v<R, i64>) {
-        return Rep::i64;
-    } else {
-        static_assert(std::is_same_v<R, double>);
+    if constexpr (std::is_same_v<R, float>) {
+        return Rep::f32;
+    } else if constexpr (std::is_same_v<R, double>) {
         return Rep::f64;
+    } else if constexpr (std::is_same_v<R, long double>) {
+        return Rep::f80;
+    } else if constexpr (std::is_integral_v<R> && !std::is_same_v<R, bool>) {
+        if constexpr (std::is_signed_v<R>) {
+            return sizeof(R) == 1 ? Rep::i8 : sizeof(R) == 2 ? Rep::i16 : sizeof(R) == 4 ? Rep::i32 : sizeof(R) == 8 ? Rep::i64 : Rep::other;
+        } else {
+            return sizeof(R) == 4 ? Rep::u32 : sizeof(R) == 8 ? Rep::u64 : Rep::other;
+        }
+    } else {
+        return Rep::other;
     }
 }
-inline char const* rep_name(Rep r) { return r == Rep::i32 ? "i32" : r == Rep::i64 ? "i64" : "double"; }
-inline bool is_fp(Rep r) { return r == Rep::f64; }
+inline char const* rep_name(Rep r)
+{
+    switch (r) {
+    case Rep::i8: return "i8";
+    case Rep::i16: return "i16";
+    case Rep::i32: return "i32";
+    case Rep::i64: return "i64";
+    case Rep::u32: return "u32";
+    case Rep::u64: return "u64";
+    case Rep::f32: return "float";
+    case Rep::f64: return "double";
+    case Rep::f80: return "ldouble";
+    default: return "other";
+    }
+}
+inline bool is_fp(Rep r) { return r == Rep::f32 || r == Rep::f64 || r == Rep::f80; }
+inline bool is_uns(Rep r) { return r == Rep::u32 || r == Rep::u64; }
 
+// An operand: integer reps use i (uint64_t counts as their bit pattern), floating reps use f,
+// which always holds a value that is exactly representable in the rep it is meant for.
 struct V {
     i64 i{0};
-    double f{0};
+    f80 f{0};
 };
 
 struct Out {
     i64 i[2]{0, 0};
-    double f[2]{0, 0};
+    f80 f[2]{0, 0};
     bool ok{true};
 };
 
-inline std::uint64_t bits(double d)
+/// value representation of a long double (10 bytes on x86-64); NaNs are one class: the sign
+/// and payload of a NaN result are not specified by the C++ standard
+struct FBits {
+    std::uint64_t lo{0};
+    std::uint16_t hi{0};
+    bool operator==(FBits const&) const = default;
+};
+inline FBits bits(f80 d)
 {
-    std::uint64_t u;
-    std::memcpy(&u, &d, sizeof u);
-    return u;
+    FBits b;
+    if (d != d) {
+        b.lo = 0xC000000000000000ULL;
+        b.hi = 0x7FFF;
+        return b;
+    }
+    unsigned char raw[sizeof(f80)];
+    std::memcpy(raw, &d, sizeof d);
+    std::memcpy(&b.lo, raw, 8);
+    std::memcpy(&b.hi, raw + 8, 2);
+    return b;
+}
+inline bool zero_bits(f80 d) { return bits(d) == FBits{}; }
+/// same value representation (NaNs: one class); the common case - equal, non-zero - without touching the bytes
+inline bool same_f(f80 a, f80 b)
+{
+    if (a == b) { return a != 0 || std::signbit(a) == std::signbit(b); }
+    return a != a && b != b;
 }
 inline bool same(Out const& a, Out const& b)
 {
-    return a.i[0] == b.i[0] && a.i[1] == b.i[1] && bits(a.f[0]) == bits(b.f[0]) && bits(a.f[1]) == bits(b.f[1]);
+    return a.i[0] == b.i[0] && a.i[1] == b.i[1] && same_f(a.f[0], b.f[0]) && same_f(a.f[1], b.f[1]);
 }
 inline std::uint64_t hash_out(Out const& o)
 {
     std::uint64_t h = mc::hash_mix(std::uint64_t(o.i[0]), std::uint64_t(o.i[1]));
-    h               = mc::hash_mix(h, bits(o.f[0]));
-    return mc::hash_mix(h, bits(o.f[1]));
+    for (int k = 0; k < 2; ++k) {
+        FBits const b = bits(o.f[k]);
+        h             = mc::hash_mix(mc::hash_mix(h, b.lo), b.hi);
+    }
+    return h;
 }
 
 template <typename R>
@@ -138,7 +238,7 @@ template <typename R>
 constexpr void put(Out& o, int k, R x)
 {
     if constexpr (std::is_floating_point_v<R>) {
-        o.f[k] = static_cast<double>(x);
+        o.f[k] = static_cast<f80>(x);
     } else {
         o.i[k] = static_cast<i64>(x);
     }
@@ -157,19 +257,24 @@ inline std::string dec(i128 v)
     if (neg) { s.insert(s.begin(), '-'); }
     return s;
 }
-inline std::string show_f(double d)
+inline std::string show_f(f80 d)
 {
-    char b[64];
-    std::snprintf(b, sizeof b, "%.17g(0x%016llx)", d, static_cast<unsigned long long>(bits(d)));
+    char b[96];
+    FBits const x = bits(d);
+    std::snprintf(b, sizeof b, "%.21Lg(0x%04x%016llx)", d, unsigned(x.hi), static_cast<unsigned long long>(x.lo));
     return b;
 }
-inline std::string show_v(V v, Rep r) { return is_fp(r) ? show_f(v.f) : dec(v.i); }
+/// the value of an integer operand / result as the rep sees it
+inline i128 ival(i64 raw, Rep r) { return r == Rep::u64 ? i128(std::uint64_t(raw)) : i128(raw); }
+inline i128 ival(V v, Rep r) { return ival(v.i, r); }
+inline f80 fval(V v, Rep r) { return is_fp(r) ? v.f : f80(ival(v, r)); }
+inline std::string show_v(V v, Rep r) { return is_fp(r) ? show_f(v.f) : dec(ival(v, r)); }
 inline std::string show_out(Out const& o)
 {
     if (!o.ok) { return "<no such overload>"; }
     std::string s = "{" + dec(o.i[0]);
     if (o.i[1] != 0) { s += "," + dec(o.i[1]); }
-    if (bits(o.f[0]) != 0 || bits(o.f[1]) != 0) { s += ";" + show_f(o.f[0]) + "," + show_f(o.f[1]); }
+    if (!zero_bits(o.f[0]) || !zero_bits(o.f[1])) { s += ";" + show_f(o.f[0]) + "," + show_f(o.f[1]); }
     return s + "}";
 }
 
@@ -189,6 +294,9 @@ enum PairOp : int {
     P_TP_FLOOR,
     P_TP_CEIL,
     P_TP_ROUND,
+    P_TP_CONVERT,   // time_point<Clock,To> t = time_point<Clock,From>(a);  (where std allows it)
+    P_TP_TO_COMMON, // common_type_t<time_point<From>, time_point<To>>(time_point<From>(a))
+    P_ASSIGN,       // To t{}; t = From(a);  (converting constructor + assignment, where implicit)
     P_FIRST_BINARY,
     P_ADD = P_FIRST_BINARY, // a + b
     P_SUB,
@@ -226,6 +334,9 @@ inline char const* pair_subject(int op)
     case P_TP_FLOOR: return "chrono::floor(time_point)";
     case P_TP_CEIL: return "chrono::ceil(time_point)";
     case P_TP_ROUND: return "chrono::round(time_point)";
+    case P_TP_CONVERT: return "time_point::time_point(time_point<Clock,Duration2>)";
+    case P_TP_TO_COMMON: return "time_point::time_point(time_point<Clock,Duration2>)";
+    case P_ASSIGN: return "duration::duration(duration<Rep2,Period2>)";
     case P_ADD: return "operator+(duration,duration)";
     case P_SUB: return "operator-(duration,duration)";
     case P_DIV: return "operator/(duration,duration)";
@@ -361,10 +472,26 @@ struct EtlL {
         return etl::chrono::round<To>(x);
     }
     template <typename X>
-    static constexpr auto abs(X const& x)
+    static constexpr auto abs(X const& x) -> decltype(etl::chrono::abs(x))
     {
         return etl::chrono::abs(x);
     }
+    // see CalendarSafe
+    template <bool Natural, typename A, typename B>
+    static constexpr auto add(A const& a, B const& b)
+    {
+        if constexpr (Natural) {
+            return a + b;
+        } else {
+            return etl::chrono::operator+ <typename A::rep>(a, b);
+        }
+    }
+    template <int TI>
+    static constexpr bool round_ok = CalendarSafe<TI>::value && P<TI>::lowest;
+    template <int I>
+    static constexpr bool abs_ok = P<I>::lowest;
+    template <bool Safe>
+    static constexpr bool plus_probe_ok = Safe;
     // time_point_cast is declared with return type ToDuration in the pinned tree and its body
     // does not compile; the declared return type tells (without instantiating the body)
     // whether the function is usable
@@ -414,10 +541,21 @@ struct StdL {
         return std::chrono::round<To>(x);
     }
     template <typename X>
-    static constexpr auto abs(X const& x)
+    static constexpr auto abs(X const& x) -> decltype(std::chrono::abs(x))
     {
         return std::chrono::abs(x);
     }
+    template <bool Natural, typename A, typename B>
+    static constexpr auto add(A const& a, B const& b)
+    {
+        return a + b;
+    }
+    template <int TI>
+    static constexpr bool round_ok = true;
+    template <int I>
+    static constexpr bool abs_ok = true;
+    template <bool Safe>
+    static constexpr bool plus_probe_ok = true;
     template <typename To, typename TP>
     static constexpr bool has_tp_cast = true;
     template <typename To, typename TP>
@@ -439,6 +577,8 @@ Out pair_op(int op, V va, V vb)
 
     constexpr bool to_int   = std::is_integral_v<TR>;
     constexpr bool both_int = std::is_integral_v<TR> && std::is_integral_v<FR>;
+    constexpr bool natural  = CalendarSafe<FI>::value;                              // From + To as a plain expression
+    constexpr bool round_ok = L::template round_ok<TI>;                             // round<To> instantiable
 
     Out o;
     FD const a{get<FR>(va)};
@@ -448,7 +588,7 @@ Out pair_op(int op, V va, V vb)
     case P_FLOOR: put(o, 0, L::template floor<TD>(a).count()); break;
     case P_CEIL: put(o, 0, L::template ceil<TD>(a).count()); break;
     case P_ROUND:
-        if constexpr (to_int) {
+        if constexpr (to_int && round_ok) {
             put(o, 0, L::template round<TD>(a).count());
         } else {
             o.ok = false;
@@ -486,35 +626,62 @@ Out pair_op(int op, V va, V vb)
         break;
     }
     case P_TP_ROUND:
-        if constexpr (to_int) {
+        if constexpr (to_int && round_ok) {
             auto const t = L::template round<TD>(FTP{a});
             put(o, 0, t.time_since_epoch().count());
         } else {
             o.ok = false;
         }
         break;
+    case P_TP_CONVERT:
+        if constexpr (std::is_convertible_v<FTP, TTP>) {
+            TTP const t = FTP{a};
+            put(o, 0, t.time_since_epoch().count());
+        } else {
+            o.ok = false;
+        }
+        break;
+    case P_TP_TO_COMMON:
+        if constexpr (requires { typename L::template common<FTP, TTP>; }) {
+            using CTP = typename L::template common<FTP, TTP>;
+            if constexpr (std::is_constructible_v<CTP, FTP const&>) {
+                CTP const t(FTP{a});
+                put(o, 0, t.time_since_epoch().count());
+            } else {
+                o.ok = false;
+            }
+        } else {
+            o.ok = false;
+        }
+        break;
+    case P_ASSIGN:
+        if constexpr (std::is_convertible_v<FD, TD>) {
+            TD t{};
+            TD& x  = (t = a);
+            o.i[1] = (&x == &t) ? 0 : 1;
+            put(o, 0, t.count());
+        } else {
+            o.ok = false;
+        }
+        break;
     case P_ADD: {
-        auto const c = a + b;
-        static_assert(std::is_same_v<std::remove_cv_t<decltype(c)>, CD>);
+        auto const c = L::template add<natural>(a, b);
         put(o, 0, c.count());
         break;
     }
     case P_SUB: {
         auto const c = a - b;
-        static_assert(std::is_same_v<std::remove_cv_t<decltype(c)>, CD>);
         put(o, 0, c.count());
         break;
     }
     case P_DIV: {
         auto const q = a / b;
-        static_assert(std::is_same_v<std::remove_cv_t<decltype(q)>, std::common_type_t<FR, TR>>);
         put(o, 0, q);
         break;
     }
     case P_MOD:
         if constexpr (both_int) {
             auto const c = a % b;
-            static_assert(std::is_same_v<std::remove_cv_t<decltype(c)>, CD>);
             put(o, 0, c.count());
         } else {
             o.ok = false;
@@ -541,7 +708,9 @@ Out pair_op(int op, V va, V vb)
         }
         break;
     case P_D_PLUS_TP:
-        if constexpr (requires(FD x, TTP y) { x + y; }) {
+        if constexpr (!L::template plus_probe_ok<natural>) {
+            o.ok = false;
+        } else if constexpr (requires(FD x, TTP y) { x + y; }) {
             auto const t = a + TTP{b};
             put(o, 0, t.time_since_epoch().count());
         } else {
@@ -585,7 +754,15 @@ Out self_op(int op, V va, V vb)
     switch (op) {
     case S_POS: put(o, 0, (+a).count()); break;
     case S_NEG: put(o, 0, (-a).count()); break;
-    case S_ABS: put(o, 0, L::abs(a).count()); break;
+    case S_ABS:
+        if constexpr (!L::template abs_ok<I>) {
+            o.ok = false;
+        } else if constexpr (requires { L::abs(a); }) { // signed reps only (numeric_limits<Rep>::is_signed)
+            put(o, 0, L::abs(a).count());
+        } else {
+            o.ok = false;
+        }
+        break;
     case S_PREINC: {
         D d       = a;
         D const x = ++d;
@@ -758,9 +935,16 @@ using OpFn = Out (*)(int, V, V);
 struct Facts {
     i64 cd_num{0}, cd_den{0};
     Rep cd_rep{Rep::i64};
+    Rep cast_rep{Rep::i64};    // common_type_t<To::rep, From::rep, intmax_t> (the type duration_cast computes in)
+    Rep div_rep{Rep::i64};     // type of From / To
     bool implicit_ok{false};   // From implicitly convertible to To
     bool constructible{false}; // To constructible from From
     bool has_tp_cast{false};
+    bool tp_implicit_ok{false};   // time_point<Clock,From> implicitly convertible to time_point<Clock,To>
+    bool tp_constructible{false}; // ... constructible
+    bool tp_common_ok{false};     // common_type<time_point<From>, time_point<To>> is time_point<Clock, CD>
+    bool arith_types_ok{false};   // From + To, From - To (and From % To for integer reps) have type CD
+    bool cast_types_ok{false};    // duration_cast/floor/ceil<To> return To; time_point forms return time_point<Clock,To>
 };
 
 template <typename L, typename FR, typename TR, int FI, int TI>
@@ -770,13 +954,31 @@ Facts make_facts()
     using TD  = typename L::template dur<TR, P<TI>>;
     using CD  = typename L::template common<FD, TD>;
     using FTP = typename L::template tp<FD>;
+    using TTP = typename L::template tp<TD>;
     Facts f;
-    f.cd_num        = CD::period::num;
-    f.cd_den        = CD::period::den;
-    f.cd_rep        = rep_kind<typename CD::rep>();
-    f.implicit_ok   = std::is_convertible_v<FD, TD>;
-    f.constructible = std::is_constructible_v<TD, FD>;
-    f.has_tp_cast   = L::template has_tp_cast<TD, FTP>;
+    f.cd_num           = CD::period::num;
+    f.cd_den           = CD::period::den;
+    f.cd_rep           = rep_kind<typename CD::rep>();
+    f.cast_rep         = rep_kind<typename L::template common<typename L::template common<TR, FR>, std::intmax_t>>();
+    f.div_rep          = rep_kind<std::remove_cv_t<decltype(std::declval<FD>() / std::declval<TD>())>>();
+    f.implicit_ok      = std::is_convertible_v<FD, TD>;
+    f.constructible    = std::is_constructible_v<TD, FD>;
+    f.has_tp_cast      = L::template has_tp_cast<TD, FTP>;
+    f.tp_implicit_ok   = std::is_convertible_v<FTP, TTP>;
+    f.tp_constructible = std::is_constructible_v<TTP, FTP>;
+    if constexpr (requires { typename L::template common<FTP, TTP>; }) {
+        f.tp_common_ok = std::is_same_v<typename L::template common<FTP, TTP>, typename L::template tp<CD>>;
+    }
+    f.arith_types_ok = std::is_same_v<std::remove_cv_t<decltype(L::template add<CalendarSafe<FI>::value>(std::declval<FD>(), std::declval<TD>()))>, CD>
+                    && std::is_same_v<std::remove_cv_t<decltype(std::declval<FD>() - std::declval<TD>())>, CD>;
+    if constexpr (std::is_integral_v<FR> && std::is_integral_v<TR>) {
+        f.arith_types_ok = f.arith_types_ok && std::is_same_v<std::remove_cv_t<decltype(std::declval<FD>() % std::declval<TD>())>, CD>;
+    }
+    f.cast_types_ok = std::is_same_v<std::remove_cv_t<decltype(L::template cast<TD>(std::declval<FD>()))>, TD>
+                   && std::is_same_v<std::remove_cv_t<decltype(L::template floor<TD>(std::declval<FD>()))>, TD>
+                   && std::is_same_v<std::remove_cv_t<decltype(L::template ceil<TD>(std::declval<FD>()))>, TD>
+                   && std::is_same_v<std::remove_cv_t<decltype(L::template floor<TD>(std::declval<FTP>()))>, TTP>
+                   && std::is_same_v<std::remove_cv_t<decltype(L::template ceil<TD>(std::declval<FTP>()))>, TTP>;
     return f;
 }
 
@@ -797,13 +999,25 @@ struct PairEntry {
 // covered automatically once lcm is repaired.
 template <i64 A, i64 B>
 inline constexpr bool etl_lcm_ok = requires { typename std::integral_constant<i64, etl::lcm(A, B)>; };
-constexpr i64 cx_gcd(i64 a, i64 b) { return b == 0 ? a : cx_gcd(b, a % b); }
 template <int FI, int TI>
 struct PairOk {
     static constexpr i64 fd   = P<FI>::info.den;
     static constexpr i64 td   = P<TI>::info.den;
     static constexpr i64 l    = fd / cx_gcd(fd, td) * td;
     static constexpr bool value = etl_lcm_ok<fd, td> && etl_lcm_ok<l, l>;
+};
+/// Is the pair inside the standard's domain at all?  ratio_divide<From,To>, the common period
+/// gcd(num)/lcm(den) and the two conversion factors into it must be representable in intmax_t,
+/// otherwise the program is ill-formed for std::chrono as well and nothing is instantiated.
+template <int FI, int TI>
+struct PairValid {
+    static constexpr i128 mx = std::numeric_limits<i64>::max();
+    static constexpr i128 fn = P<FI>::info.num, fd = P<FI>::info.den, tn = P<TI>::info.num, td = P<TI>::info.den;
+    static constexpr i128 g1 = cx_gcd(i64(fn), i64(tn)), g2 = cx_gcd(i64(fd), i64(td));
+    static constexpr i128 N = (fn / g1) * (td / g2), D = (fd / g2) * (tn / g1);
+    static constexpr i128 cd_den = fd / g2 * td;
+    static constexpr i128 fF = (fn / g1) * (cd_den / fd), fT = (tn / g1) * (cd_den / td);
+    static constexpr bool value = N <= mx && D <= mx && cd_den <= mx && fF <= mx && fT <= mx;
 };
 inline Out no_op(int, V, V)
 {
@@ -888,23 +1102,69 @@ inline i128 inv_mod(i128 n, i128 d)
 
 inline i128 rep_min(Rep r)
 {
-    return r == Rep::i32 ? i128(std::numeric_limits<i32>::min()) : i128(std::numeric_limits<i64>::min());
+    switch (r) {
+    case Rep::i8: return std::numeric_limits<i8>::min();
+    case Rep::i16: return std::numeric_limits<i16>::min();
+    case Rep::i32: return std::numeric_limits<i32>::min();
+    case Rep::i64: return std::numeric_limits<i64>::min();
+    default: return 0; // unsigned
+    }
 }
 inline i128 rep_max(Rep r)
 {
-    return r == Rep::i32 ? i128(std::numeric_limits<i32>::max()) : i128(std::numeric_limits<i64>::max());
+    switch (r) {
+    case Rep::i8: return std::numeric_limits<i8>::max();
+    case Rep::i16: return std::numeric_limits<i16>::max();
+    case Rep::i32: return std::numeric_limits<i32>::max();
+    case Rep::i64: return std::numeric_limits<i64>::max();
+    case Rep::u32: return std::numeric_limits<u32>::max();
+    case Rep::u64: return std::numeric_limits<u64>::max();
+    default: return 0;
+    }
 }
 inline bool fits(Rep r, i128 v) { return v >= rep_min(r) && v <= rep_max(r); }
-inline bool fits64(i128 v) { return fits(Rep::i64, v); }
+/// x * f (f >= 1) without leaving __int128: false when the product is outside rep r
+inline bool mul_fits(Rep r, i128 x, i128 f, i128& out)
+{
+    constexpr i128 p63 = i128(1) << 63;
+    if (x < p63 && x > -p63 && f < p63) { // |x * f| < 2^126: no overflow of __int128
+        out = x * f;
+        return fits(r, out);
+    }
+    if (x > 0 ? x > rep_max(r) / f : x < rep_min(r) / f) { return false; }
+    out = x * f;
+    return true;
+}
+/// largest finite value of a floating rep
+inline f80 fp_max(Rep r)
+{
+    return r == Rep::f32 ? f80(std::numeric_limits<float>::max())
+         : r == Rep::f64 ? f80(std::numeric_limits<double>::max())
+                         : std::numeric_limits<f80>::max();
+}
+/// std::common_type of two arithmetic reps (own table: integral promotion + usual arithmetic
+/// conversions on LP64; compared with what the compiler says in check_facts)
 inline Rep common_rep(Rep a, Rep b)
 {
-    if (is_fp(a) || is_fp(b)) { return Rep::f64; }
-    return (a == Rep::i64 || b == Rep::i64) ? Rep::i64 : Rep::i32;
+    if (is_fp(a) || is_fp(b)) {
+        if (a == Rep::f80 || b == Rep::f80) { return Rep::f80; }
+        if (a == Rep::f64 || b == Rep::f64) { return Rep::f64; }
+        return Rep::f32;
+    }
+    if (a == b) { return a; } // common_type<T,T> is T: no promotion
+    auto promote = [](Rep r) { return (r == Rep::i8 || r == Rep::i16) ? Rep::i32 : r; };
+    a            = promote(a);
+    b            = promote(b);
+    if (a == b) { return a; }
+    if (a == Rep::u64 || b == Rep::u64) { return Rep::u64; }
+    if (a == Rep::i64 || b == Rep::i64) { return Rep::i64; } // i64 holds every u32 / i32
+    return Rep::u32;                                          // {i32, u32}
 }
 
 /// everything the exact model needs to know about a pair
 struct PairCtx {
     Rep fr, tr, cr;
+    Rep castr;          // common_type<To::rep, From::rep, intmax_t>: what duration_cast computes in
     PeriodInfo fp, tp;
     i128 N, D;          // conversion factor From -> To, reduced
     i128 cd_num, cd_den; // common period (own gcd/lcm)
@@ -914,36 +1174,44 @@ struct PairCtx {
 inline PairCtx make_ctx(PairEntry const& e)
 {
     PairCtx c;
-    c.fr         = e.fr;
-    c.tr         = e.tr;
-    c.cr         = common_rep(e.fr, e.tr);
-    c.fp         = period_info(e.fi);
-    c.tp         = period_info(e.ti);
-    i128 const n = i128(c.fp.num) * c.tp.den;
-    i128 const d = i128(c.fp.den) * c.tp.num;
-    i128 const g = gcd128(n, d);
-    c.N          = n / g;
-    c.D          = d / g;
-    c.cd_num     = gcd128(c.fp.num, c.tp.num);
-    c.cd_den     = i128(c.fp.den) / gcd128(c.fp.den, c.tp.den) * c.tp.den;
-    c.fF         = (c.fp.num / c.cd_num) * (c.cd_den / c.fp.den);
-    c.fT         = (c.tp.num / c.cd_num) * (c.cd_den / c.tp.den);
+    c.fr          = e.fr;
+    c.tr          = e.tr;
+    c.cr          = common_rep(e.fr, e.tr);
+    c.castr       = common_rep(common_rep(e.tr, e.fr), Rep::i64);
+    c.fp          = period_info(e.fi);
+    c.tp          = period_info(e.ti);
+    i128 const g1 = gcd128(c.fp.num, c.tp.num);
+    i128 const g2 = gcd128(c.fp.den, c.tp.den);
+    c.N           = (c.fp.num / g1) * (c.tp.den / g2);
+    c.D           = (c.fp.den / g2) * (c.tp.num / g1);
+    c.cd_num      = g1;
+    c.cd_den      = i128(c.fp.den) / g2 * c.tp.den;
+    c.fF          = (c.fp.num / c.cd_num) * (c.cd_den / c.fp.den);
+    c.fT          = (c.tp.num / c.cd_num) * (c.cd_den / c.tp.den);
     return c;
 }
 
-/// Exact result of an integer pair operation.  Returns false when the case is outside the
-/// statement: the exact result, or an intermediate value that the standard's definition (for
-/// floor/ceil/round: the canonical cast-compare-adjust formulation) computes, is not
-/// representable in the type it is computed in.
+/// Exact result of an integer pair operation (a, b: the counts as their reps see them).
+/// Returns false when the case is outside the statement: the exact result, or an
+/// intermediate value that the standard's definition (for floor/ceil/round: the canonical
+/// cast-compare-adjust formulation) computes, is not representable in the type it is
+/// computed in.
 inline bool exact_pair(int op, PairCtx const& c, i128 a, i128 b, i128& out)
 {
-    auto to_cd = [&](i128 x, i128 f, i128& r) { // conversion of a count to the common duration
-        r = x * f;
-        return fits(c.cr, r);
-    };
-    auto cast = [&](i128& t) { // duration_cast<To>: a * N / D in intmax_t, truncating
-        if (!fits64(a * c.N)) { return false; }
-        t = (a * c.N) / c.D;
+    // conversion of a count to the common duration: converting constructor == duration_cast
+    // with D == 1; it multiplies in common_type<cr, rep, intmax_t>, which contains cr, so the
+    // only condition is that the product is a value of cr
+    auto to_cd = [&](i128 x, i128 f, i128& r) { return mul_fits(c.cr, x, f, r); };
+    // duration_cast<To>: [time.duration.cast] - static_cast<To::rep>(a) when N == D == 1,
+    // otherwise static_cast<CR>(a) [* N] [/ D] evaluated in CR = castr, then static_cast<To::rep>
+    auto cast = [&](i128& t) {
+        if (c.N == 1 && c.D == 1) {
+            t = a;
+            return fits(c.tr, t);
+        }
+        i128 n;
+        if (!fits(c.castr, a) || !mul_fits(c.castr, a, c.N, n)) { return false; }
+        t = n / c.D;
         return fits(c.tr, t);
     };
     auto cmp_ok = [&](i128 t) { // t (To) compared with a (From) through the common type
@@ -981,11 +1249,13 @@ inline bool exact_pair(int op, PairCtx const& c, i128 a, i128 b, i128& out)
         out = round_even_div(a * c.N, c.D);
         return true;
     }
-    case P_TO_COMMON: return to_cd(a, c.fF, out);
+    case P_TO_COMMON:
+    case P_TP_TO_COMMON: return to_cd(a, c.fF, out);
     case P_IMPLICIT:
+    case P_TP_CONVERT:
+    case P_ASSIGN:
         if (c.D != 1) { return false; }
-        out = a * c.N;
-        return fits64(out) && fits(c.tr, out);
+        return cast(out);
     default: break;
     }
     if (!to_cd(a, c.fF, A) || !to_cd(b, c.fT, B)) { return false; }
@@ -1085,32 +1355,48 @@ inline void finish_set(std::vector<i128>& v, Rep r)
     v.swap(o);
 }
 
-inline void add_boundaries(std::vector<i128>& v, bool full = true)
+/// `full`: +-2^k + d for k in {30,31,62,63} and, for the reps of round 2, their own width
+/// (int8_t: 7, 8; int16_t: 15, 16; uint32_t: 32; uint64_t: 32, 64), d in -2..2 (whatever fits
+/// the rep survives finish_set).  Reduced list (quick tier, second operand): the values the
+/// property names - +-(2^31-1), +-2^31, +-2^62, the extremes of int64 - and the extremes of rep r.
+inline void add_boundaries(std::vector<i128>& v, Rep r, bool full = true)
 {
-    i128 const p31 = i128(1) << 31, p62 = i128(1) << 62, p63 = i128(1) << 63, p30 = i128(1) << 30;
-    if (!full) { // the values the property names: +-(2^31-1), +-2^31, +-2^62, and the extremes of int64
-        for (i128 x : {p31 - 1, p31, p62, p63 - 1}) {
+    auto p = [](int k) { return i128(1) << k; };
+    if (!full) {
+        for (i128 x : {p(31) - 1, p(31), p(62), p(63) - 1}) {
             v.push_back(x);
             v.push_back(-x);
         }
-        v.push_back(-p63);
+        v.push_back(-p(63));
+        v.push_back(rep_max(r));
+        v.push_back(rep_min(r));
         return;
     }
-    for (i128 base : {p30, p31, p62, p63}) {
+    std::vector<int> ks{30, 31, 62, 63};
+    if (r == Rep::i8) { ks.insert(ks.end(), {7, 8}); }
+    if (r == Rep::i16) { ks.insert(ks.end(), {15, 16}); }
+    if (r == Rep::u32) { ks.push_back(32); }
+    if (r == Rep::u64) { ks.insert(ks.end(), {32, 64}); }
+    for (int k : ks) {
         for (int d = -2; d <= 2; ++d) {
-            v.push_back(base + d);
-            v.push_back(-base + d);
+            v.push_back(p(k) + d);
+            v.push_back(-p(k) + d);
         }
     }
 }
 
-/// first operands: every count in [-range, range], the boundary values, and for this pair the
-/// exact ties / nearest-to-half residues of the From -> To conversion and their neighbours
+/// first operands: every count in [-range, range], the boundary values, and for this pair
+/// (1) the exact ties / nearest-to-half residues of the From -> To conversion and their
+/// neighbours, (2) the counts around the overflow boundaries of the prescribed computation:
+/// max/min of the type duration_cast computes in divided by N, max/min of the common rep
+/// divided by the From -> common factor, and the counts whose converted value is max/min of
+/// To::rep - each with offsets -2..2 (the ones beyond the boundary are rejected by the model
+/// and counted as skipped)
 inline std::vector<i128> first_operands(PairCtx const& c, int range)
 {
     std::vector<i128> v;
     for (int x = -range; x <= range; ++x) { v.push_back(x); }
-    add_boundaries(v);
+    add_boundaries(v, c.fr);
     if (c.D > 1) {
         i128 const ninv = inv_mod(c.N, c.D);
         std::vector<i128> residues;
@@ -1121,19 +1407,37 @@ inline std::vector<i128> first_operands(PairCtx const& c, int range)
             residues.push_back((c.D + 1) / 2);
         }
         for (i128 res : residues) {
-            i128 const c0 = (res * ninv) % c.D; // c0 * N == res (mod D)
+            // c0 * N == res (mod D); res, ninv < D <= 2^63, so the product stays inside __int128
+            i128 const c0 = (res * ninv) % c.D;
             for (int k = -3; k <= 2; ++k) {
                 for (int d = -1; d <= 1; ++d) { v.push_back(c0 + k * c.D + d); }
             }
         }
+    }
+    auto around = [&](i128 x) {
+        for (int d = -2; d <= 2; ++d) { v.push_back(x + d); }
+    };
+    if (!is_fp(c.castr) && c.N > 1) {
+        around(rep_max(c.castr) / c.N);
+        around(rep_min(c.castr) / c.N);
+    }
+    if (!is_fp(c.cr) && c.fF > 1) {
+        around(rep_max(c.cr) / c.fF);
+        around(rep_min(c.cr) / c.fF);
+    }
+    if (!is_fp(c.tr) && !(c.N == 1 && c.D == 1)) {
+        // rep_max(tr) < 2^64 and D < 2^63: the product stays inside __int128
+        around(rep_max(c.tr) * c.D / c.N);
+        around(rep_min(c.tr) * c.D / c.N);
     }
     finish_set(v, c.fr);
     return v;
 }
 
 /// second operands: a small dense range, unit-conversion constants and the boundaries
-/// (quick tier: range <= 4, fewer constants, the reduced boundary list)
-inline std::vector<i128> second_operands(Rep r, int range)
+/// (quick tier: range <= 4, fewer constants, the reduced boundary list); plus the largest
+/// count (and its negative) that the To -> common conversion of this pair can take
+inline std::vector<i128> second_operands(Rep r, int range, Rep cr = Rep::other, i128 fT = 1)
 {
     bool const full = range > 4;
     std::vector<i128> v;
@@ -1149,39 +1453,109 @@ inline std::vector<i128> second_operands(Rep r, int range)
             v.push_back(-x);
         }
     }
-    add_boundaries(v, full);
+    add_boundaries(v, r, full);
+    if (cr != Rep::other && !is_fp(cr) && fT > 1) {
+        v.push_back(rep_max(cr) / fT);
+        v.push_back(rep_min(cr) / fT);
+    }
     finish_set(v, r);
     return v;
 }
 
-inline std::vector<double> fp_first_operands(int range)
+// ---- floating operands ------------------------------------------------------------------
+
+template <typename R>
+f80 quant_as(f80 x)
 {
-    std::vector<double> v;
-    for (int k = 0; k <= 4 * range; ++k) {
-        v.push_back(k / 4.0);
-        if (k != 0) { v.push_back(-k / 4.0); }
-    }
-    double const sp[] = {0.1, 1e-9, 1.0 / 3.0, 1e9 + 0.5, 2147483647.0, 2147483648.0, 9007199254740991.0, 9007199254740992.0,
-        4611686018427387904.0, 1e18, 123456.789};
-    v.push_back(-0.0);
-    for (double x : sp) {
-        v.push_back(x);
-        v.push_back(-x);
-    }
-    return v;
+    return static_cast<f80>(static_cast<R>(x));
 }
-inline std::vector<double> fp_second_operands()
+/// x rounded to rep r (x is finite and inside the range of r)
+inline f80 quant(Rep r, f80 x) { return r == Rep::f32 ? quant_as<float>(x) : r == Rep::f64 ? quant_as<double>(x) : x; }
+
+template <typename R>
+void push_specials(std::vector<f80>& v, bool full)
 {
-    std::vector<double> v;
+    using L       = std::numeric_limits<R>;
+    R const sub   = L::denorm_min();
+    R const norm  = L::min();
+    R const big   = L::max();
+    R const lsub  = norm - sub; // largest subnormal
+    v.push_back(f80(L::quiet_NaN()));
+    v.push_back(f80(L::infinity()));
+    v.push_back(f80(-L::infinity()));
+    v.push_back(f80(R(-0.0)));
+    v.push_back(f80(sub));
+    v.push_back(f80(-big));
+    if (full) {
+        for (R x : {R(-sub), lsub, R(-lsub), norm, R(-norm), big}) { v.push_back(f80(x)); }
+    }
+}
+/// NaN, +-inf, -0.0, subnormals (smallest, largest), smallest normal, largest finite of rep r
+inline void add_fp_specials(std::vector<f80>& v, Rep r, bool full)
+{
+    if (r == Rep::f32) {
+        push_specials<float>(v, full);
+    } else if (r == Rep::f64) {
+        push_specials<double>(v, full);
+    } else {
+        push_specials<f80>(v, full);
+    }
+}
+inline void finish_fp(std::vector<f80>& v) // order-preserving, duplicate-free by bit pattern (short lists only)
+{
+    std::vector<f80> o;
+    for (f80 x : v) {
+        bool dup = false;
+        for (f80 y : o) {
+            if (bits(x) == bits(y)) {
+                dup = true;
+                break;
+            }
+        }
+        if (!dup) { o.push_back(x); }
+    }
+    v.swap(o);
+}
+
+/// floating first operands of rep r: the grid k/4, |k| <= 4*range; +- a list of constants that
+/// includes values not exactly representable in the next narrower type (0.1 as float / double /
+/// long double, 2^24+1, 2^53+1, 2^63+1, 2^64-1, 1e18+0.5), each rounded to r; the special values
+inline std::vector<f80> fp_first_operands(Rep r, int range)
+{
+    std::vector<f80> v;
+    f80 const sp[] = {0.1L, f80(0.1), f80(0.1f), 1e-9L, 1.0L / 3.0L, 1e9L + 0.5L, 16777217.0L, 2147483647.0L, 2147483648.0L,
+        4294967296.0L, 9007199254740991.0L, 9007199254740992.0L, 9007199254740993.0L, 4611686018427387904.0L,
+        9223372036854775808.0L, 9223372036854775809.0L, 18446744073709551615.0L, 18446744073709551616.0L, 1e18L,
+        1e18L + 0.5L, 123456.789L, 1e30L, 1e-30L};
+    v.push_back(f80(-0.0));
+    for (f80 x : sp) {
+        v.push_back(quant(r, x));
+        v.push_back(quant(r, -x));
+    }
+    add_fp_specials(v, r, true);
+    finish_fp(v); // the constants may collide after rounding; the grid below cannot collide with them
+    std::vector<f80> g;
+    for (int k = 0; k <= 4 * range; ++k) {
+        g.push_back(k / 4.0L);
+        if (k != 0) { g.push_back(-k / 4.0L); }
+    }
+    g.insert(g.end(), v.begin(), v.end());
+    return g;
+}
+inline std::vector<f80> fp_second_operands(Rep r)
+{
+    std::vector<f80> v;
     for (int k = 0; k <= 12; ++k) {
-        v.push_back(k / 4.0);
-        if (k != 0) { v.push_back(-k / 4.0); }
+        v.push_back(k / 4.0L);
+        if (k != 0) { v.push_back(-k / 4.0L); }
     }
-    double const sp[] = {7.5, 60, 1000, 0.1, 1e9, 1.0 / 3.0, 86400, 4611686018427387904.0};
-    for (double x : sp) {
-        v.push_back(x);
-        v.push_back(-x);
+    f80 const sp[] = {7.5L, 60, 1000, 0.1L, 1e9L, 1.0L / 3.0L, 86400, 4611686018427387904.0L};
+    for (f80 x : sp) {
+        v.push_back(quant(r, x));
+        v.push_back(quant(r, -x));
     }
+    add_fp_specials(v, r, false);
+    finish_fp(v);
     return v;
 }
 
@@ -1197,11 +1571,17 @@ inline char const* dir_name(PairCtx const& c)
     return "mixed";
 }
 inline char sign_char(i128 v) { return v < 0 ? '-' : v > 0 ? '+' : '0'; }
-inline char sign_char(double v) { return v < 0 ? '-' : v > 0 ? '+' : '0'; }
+/// floating operands: n = NaN, I / i = +-infinity, otherwise the sign (subnormals count as their sign)
+inline char sign_char(f80 v) { return v != v ? 'n' : std::isinf(v) ? (v > 0 ? 'I' : 'i') : v < 0 ? '-' : v > 0 ? '+' : '0'; }
+inline char sign_of(V v, Rep r) { return is_fp(r) ? sign_char(v.f) : sign_char(ival(v, r)); }
 inline std::string rep_class(Rep fr, Rep tr)
 {
-    if (!is_fp(fr) && !is_fp(tr)) { return "int"; }
-    if (is_fp(fr) && is_fp(tr)) { return "fp"; }
+    if (!is_fp(fr) && !is_fp(tr)) {
+        if (is_uns(fr) || is_uns(tr)) { return "uint"; }
+        auto narrow = [](Rep r) { return r == Rep::i8 || r == Rep::i16; };
+        return (narrow(fr) || narrow(tr)) ? "int_narrow" : "int";
+    }
+    if (is_fp(fr) && is_fp(tr)) { return fr == tr ? "fp" : "fp_mixed"; }
     return is_fp(tr) ? "int_to_fp" : "fp_to_int";
 }
 
@@ -1211,13 +1591,13 @@ inline std::string pair_class(int op, PairCtx const& c, V a, V b)
     s += "/";
     if (op < P_FIRST_BINARY) {
         s += dir_name(c);
-        if (op == P_TO_COMMON || op == P_IMPLICIT) { return s; }
+        if (op == P_TO_COMMON || op == P_IMPLICIT || op == P_TP_CONVERT || op == P_TP_TO_COMMON || op == P_ASSIGN) { return s; }
         s += "/";
         if (is_fp(c.fr)) {
             s += sign_char(a.f);
             return s;
         }
-        i128 const n = i128(a.i) * c.N;
+        i128 const n = ival(a, c.fr) * c.N; // |a| <= 2^64, N < 2^63
         if (n == 0) { return s + "zero"; }
         s += n < 0 ? "neg_" : "pos_";
         i128 const rem = iabs(n) % c.D;
@@ -1228,18 +1608,25 @@ inline std::string pair_class(int op, PairCtx const& c, V a, V b)
     s += (c.N == 1 && c.D == 1) ? "same_period" : "diff_period";
     if (op == P_DIV || op == P_MOD) { // the only binary operations whose rounding depends on the signs
         s += "/";
-        s += is_fp(c.fr) ? sign_char(a.f) : sign_char(i128(a.i));
-        s += is_fp(c.tr) ? sign_char(b.f) : sign_char(i128(b.i));
+        s += sign_of(a, c.fr);
+        s += sign_of(b, c.tr);
+    } else if (is_fp(c.fr) || is_fp(c.tr)) { // special values form their own classes
+        char const x = sign_of(a, c.fr), y = sign_of(b, c.tr);
+        if (x == 'n' || y == 'n') {
+            s += "/nan";
+        } else if (x == 'I' || x == 'i' || y == 'I' || y == 'i') {
+            s += "/inf";
+        }
     }
     return s;
 }
 
 inline std::string self_class(int op, Rep r, V a, V b)
 {
-    std::string s = is_fp(r) ? "fp/" : "int/";
+    std::string s = is_fp(r) ? "fp/" : is_uns(r) ? "uint/" : "int/";
     if (op == S_ZERO || op == S_MIN || op == S_MAX || op == S_TP_MIN || op == S_TP_MAX) { return s + "constant"; }
-    s += is_fp(r) ? sign_char(a.f) : sign_char(i128(a.i));
-    if (op >= S_FIRST_BINARY) { s += is_fp(r) ? sign_char(b.f) : sign_char(i128(b.i)); }
+    s += sign_of(a, r);
+    if (op >= S_FIRST_BINARY) { s += sign_of(b, r); }
     return s;
 }
 
@@ -1297,10 +1684,15 @@ bool run_both(mc::Reporter& r, OpFn etl, OpFn stdf, int op, V a, V b, char const
 inline void check_facts(mc::Reporter& r, PairEntry const& e, PairCtx const& c)
 {
     std::string const kase = mc::cat("From=", dur_name(c.fr, c.fp), " To=", dur_name(c.tr, c.tp));
-    r.count("evaluations", 3);
-    if (e.sf.cd_num != i64(c.cd_num) || e.sf.cd_den != i64(c.cd_den) || e.sf.cd_rep != c.cr) {
+    r.count("evaluations", 9);
+    if (e.sf.cd_num != i64(c.cd_num) || e.sf.cd_den != i64(c.cd_den) || e.sf.cd_rep != c.cr || e.sf.cast_rep != c.castr
+        || e.sf.div_rep != c.cr || !e.sf.arith_types_ok || !e.sf.cast_types_ok) {
+        // (sf.tp_common_ok is not required: libstdc++ maps common_type<TP, TP> to TP itself, which differs from
+        // time_point<Clock, common_type_t<D, D>> when D's period argument is not in lowest terms)
         r.violation("C12", "harness:oracle-disagreement", "common_type", kase,
-            mc::cat("std period ", e.sf.cd_num, "/", e.sf.cd_den, " model ", dec(c.cd_num), "/", dec(c.cd_den)));
+            mc::cat("std period ", e.sf.cd_num, "/", e.sf.cd_den, " rep ", rep_name(e.sf.cd_rep), " cast rep ", rep_name(e.sf.cast_rep),
+                " div rep ", rep_name(e.sf.div_rep), "; model ", dec(c.cd_num), "/", dec(c.cd_den), " rep ", rep_name(c.cr), " cast rep ",
+                rep_name(c.castr)));
         return;
     }
     if (e.ef.cd_num != e.sf.cd_num || e.ef.cd_den != e.sf.cd_den) {
@@ -1311,17 +1703,49 @@ inline void check_facts(mc::Reporter& r, PairEntry const& e, PairCtx const& c)
         r.violation("C12", "common_type<duration,duration>", "rep", kase,
             mc::cat("etl ", rep_name(e.ef.cd_rep), " std ", rep_name(e.sf.cd_rep)));
     }
+    if (e.ef.cast_rep != e.sf.cast_rep) {
+        r.violation("C12", "common_type<Rep1,Rep2,intmax_t>", mc::cat("rep/", rep_class(c.fr, c.tr)), kase,
+            mc::cat("etl ", rep_name(e.ef.cast_rep), " std ", rep_name(e.sf.cast_rep)));
+    }
+    if (e.ef.div_rep != e.sf.div_rep) {
+        r.violation("C12", "operator/(duration,duration)", mc::cat("return_type/", rep_class(c.fr, c.tr)), kase,
+            mc::cat("etl ", rep_name(e.ef.div_rep), " std ", rep_name(e.sf.div_rep)));
+    }
+    if (!e.ef.arith_types_ok) {
+        r.violation("C12", "operator+(duration,duration)", mc::cat("return_type/", rep_class(c.fr, c.tr)), kase,
+            "the type of From + To, From - To or From % To is not common_type_t<From,To>");
+    }
+    if (!e.ef.cast_types_ok) {
+        r.violation("C12", "chrono::duration_cast", mc::cat("return_type/", rep_class(c.fr, c.tr)), kase,
+            "duration_cast/floor/ceil<To>(duration) does not return To, or floor/ceil<To>(time_point) not time_point<Clock,To>");
+    }
     if (e.ef.implicit_ok != e.sf.implicit_ok || e.ef.constructible != e.sf.constructible) {
         r.violation("C12", "duration::duration(duration<Rep2,Period2>)", mc::cat("constraint/", rep_class(c.fr, c.tr), "/", dir_name(c)),
             kase,
             mc::cat("implicitly convertible: etl ", e.ef.implicit_ok, " std ", e.sf.implicit_ok, "; constructible: etl ",
                 e.ef.constructible, " std ", e.sf.constructible));
     }
+    if (e.ef.tp_implicit_ok != e.sf.tp_implicit_ok || e.ef.tp_constructible != e.sf.tp_constructible) {
+        r.violation("C12", "time_point::time_point(time_point<Clock,Duration2>)",
+            mc::cat("constraint/", rep_class(c.fr, c.tr), "/", dir_name(c)), kase,
+            mc::cat("implicitly convertible: etl ", e.ef.tp_implicit_ok, " std ", e.sf.tp_implicit_ok, "; constructible: etl ",
+                e.ef.tp_constructible, " std ", e.sf.tp_constructible));
+    }
+    if (!e.ef.tp_common_ok) {
+        r.violation("C12", "common_type<time_point,time_point>", "type", kase,
+            "etl::common_type of the two time_points is not time_point<Clock, common_type_t<From,To>>");
+    }
     if (!e.ef.has_tp_cast) { r.count("api_gap_time_point_cast_uncompilable"); }
 }
 
+struct Ranges {
+    int a{200};          // first operand: every count in [-a, a] (floating: k/4, |k| <= 4a)
+    int b{3};            // second operand: [-b, b]; b <= 4 selects the reduced constant / boundary lists
+    int unary_full{0};   // integer From: additionally every count in [-unary_full, unary_full] for the unary operations only
+};
+
 /// all operations of one (rep configuration, From, To) over the operand sets
-inline void run_pair(mc::Reporter& r, PairEntry const& e, int range_a, int range_b)
+inline void run_pair(mc::Reporter& r, PairEntry const& e, Ranges const& rg)
 {
     PairCtx const c    = make_ctx(e);
     bool const any_fp  = is_fp(e.fr) || is_fp(e.tr);
@@ -1338,38 +1762,106 @@ inline void run_pair(mc::Reporter& r, PairEntry const& e, int range_a, int range
     }
     check_facts(r, e, c);
 
-    // operand lists as V
+    // operand lists as V; as[0, n_binary) take part in the binary operations, the rest only in the unary ones
     std::vector<V> as, bs;
     if (is_fp(e.fr)) {
-        for (double x : fp_first_operands(range_a)) { as.push_back(V{0, x}); }
+        for (f80 x : fp_first_operands(e.fr, rg.a)) { as.push_back(V{0, x}); }
     } else {
-        for (i128 x : first_operands(c, range_a)) { as.push_back(V{i64(x), 0}); }
+        for (i128 x : first_operands(c, rg.a)) { as.push_back(V{i64(x), 0}); }
+    }
+    std::size_t const n_binary = as.size();
+    if (!is_fp(e.fr) && rg.unary_full > rg.a) {
+        std::vector<i128> extra;
+        for (int x = rg.a + 1; x <= rg.unary_full; ++x) {
+            extra.push_back(x);
+            extra.push_back(-x);
+        }
+        std::vector<i128> const have = first_operands(c, rg.a); // sorted by (|x|, sign): not binary-searchable by value
+        std::set<i128> const seen(have.begin(), have.end());
+        for (i128 x : extra) {
+            if (fits(e.fr, x) && seen.find(x) == seen.end()) { as.push_back(V{i64(x), 0}); }
+        }
     }
     if (is_fp(e.tr)) {
-        for (double x : fp_second_operands()) { bs.push_back(V{0, x}); }
+        for (f80 x : fp_second_operands(e.tr)) { bs.push_back(V{0, x}); }
     } else {
-        for (i128 x : second_operands(e.tr, range_b)) { bs.push_back(V{i64(x), 0}); }
+        for (i128 x : second_operands(e.tr, rg.b, c.cr, c.fT)) { bs.push_back(V{i64(x), 0}); }
     }
 
-    // fp validity: only "the converted value is far inside the integer range" where a
-    // floating value is converted to an integer count
-    long double const cf = (long double)(c.N) / (long double)(c.D);
-    auto fp_valid        = [&](int op, V a, V b) {
-        long double const av = is_fp(e.fr) ? (long double)a.f : (long double)a.i;
-        long double const bv = is_fp(e.tr) ? (long double)b.f : (long double)b.i;
-        long double const lim = 4.0e18L; // < 2^62
+    // Floating validity.  All arithmetic on floating reps is defined under IEC 60559 (NaN and
+    // infinities included); what is excluded: (1) conversion of a floating value to an integer
+    // count unless the value is finite and - with a relative margin of 2^-20 and an absolute one
+    // of 2, covering the rounding of the computation and the +-1 of floor/ceil/round - inside the
+    // target range; (2) finite operands whose prescribed intermediate (count * N in the type
+    // duration_cast computes in, count * factor in the common rep) or result exceeds 0.999 * max
+    // of the floating type it is computed in / converted to (overflow to infinity: the exact
+    // result or a prescribed intermediate is not representable); (3) division by a zero count,
+    // operator% (not defined for floating reps).
+    f80 const cf     = f80(c.N) / f80(c.D);
+    auto in_fp_range = [](Rep r, f80 x) { return !std::isfinite(x) || std::fabs(x) <= fp_max(r) * 0.999L; };
+    auto int_target  = [&](Rep r, f80 x) { // x (estimate of the value converted to integer rep r)
+        if (!std::isfinite(x)) { return false; }
+        f80 const hi = f80(rep_max(r)) * (1.0L - 0x1p-20L) - 2.0L;
+        f80 const lo = is_uns(r) ? 0.0L : -hi;
+        return x >= lo && x <= hi;
+    };
+    // the verdicts of the binary operations depend on (a, b) only: computed once per pair of operands (set_bin)
+    struct BinVerdict {
+        bool conv{false}, ordered{false}, sum{false}, div{false};
+    } bin;
+    auto set_bin = [&](V a, V b) {
+        f80 const bv      = fval(b, e.tr);
+        f80 const A       = fval(a, e.fr) * f80(c.fF), B = bv * f80(c.fT); // both operands in the common (floating) rep
+        bool const finite = std::isfinite(A) && std::isfinite(B);
+        bin.conv          = in_fp_range(c.cr, A) && in_fp_range(c.cr, B);
+        bin.ordered       = !(A != A) && !(B != B);
+        bin.sum           = !finite || std::fabs(A) + std::fabs(B) <= fp_max(c.cr) * 0.999L;
+        bin.div           = (bv != bv) || ((bv != 0) && (!finite || in_fp_range(c.cr, A / B))); // no zero divisor
+    };
+    auto fp_valid = [&](int op, V a, V) {
+        f80 const av = fval(a, e.fr);
         if (op < P_FIRST_BINARY) {
-            if (op == P_IMPLICIT) { return e.sf.implicit_ok; }
-            if (op == P_TO_COMMON) { return true; } // common rep is double
+            if (op == P_IMPLICIT || op == P_ASSIGN) {
+                if (!e.sf.implicit_ok) { return false; }
+            } else if (op == P_TP_CONVERT) {
+                if (!e.sf.tp_implicit_ok) { return false; }
+            }
+            if (op == P_TO_COMMON || op == P_TP_TO_COMMON) { return in_fp_range(c.cr, av * f80(c.fF)); } // common rep is floating
+            // cast family and the implicit conversions (== duration_cast): computed in castr (floating)
+            if (!same_pd && !(in_fp_range(c.castr, av * f80(c.N)) && in_fp_range(c.castr, av * cf))) { return false; }
             if (!is_fp(e.tr)) {
-                long double const x = av * cf;
-                return x > -lim && x < lim && (is_fp(e.fr) || fits64(i128(a.i) * c.N));
+                // unsigned target: a negative operand has no representable floor
+                if (is_uns(e.tr) && std::signbit(av) && av != 0) { return false; }
+                if (!int_target(e.tr, av * cf)) { return false; }
+            } else if (!in_fp_range(e.tr, av * cf)) {
+                return false;
+            }
+            bool const compares = op == P_FLOOR || op == P_CEIL || op == P_ROUND || op == P_TP_FLOOR || op == P_TP_CEIL || op == P_TP_ROUND;
+            if (compares) { // the result and the argument are compared / subtracted in the common (floating) rep
+                return in_fp_range(c.cr, av * f80(c.fF)) && in_fp_range(c.cr, (std::fabs(av * cf) + 1) * f80(c.fT));
             }
             return true;
         }
-        if (op == P_MOD) { return false; }
-        if (op == P_DIV) { return bv != 0; }
-        return true;
+        if (op == P_MOD || !bin.conv) { return false; }
+        switch (op) {
+        case P_ADD:
+        case P_SUB:
+        case P_TP_PLUS_D:
+        case P_D_PLUS_TP:
+        case P_TP_MINUS_D:
+        case P_TP_MINUS_TP: return bin.sum;
+        case P_DIV: return bin.div;
+        case P_LE:
+        case P_GE:
+        case P_TP_LE:
+        case P_TP_GE:
+            // unordered operands: [time.duration.comparisons] defines operator<= as !(rhs < lhs) (true) and also
+            // operator<=>, and the expression a <= b on std::chrono types resolves to the more constrained
+            // operator<=> (false for NaN) with g++ 12 - which of the two a call reaches is a property of the
+            // reference's overload set, not of the value
+            return bin.ordered;
+        default: return true;
+        }
     };
 
     Tally t;
@@ -1381,7 +1873,7 @@ inline void run_pair(mc::Reporter& r, PairEntry const& e, int range_a, int range
         if (any_fp) {
             valid = fp_valid(op, a, b);
         } else {
-            valid = exact_pair(op, c, a.i, b.i, exact);
+            valid = exact_pair(op, c, ival(a, c.fr), ival(b, c.tr), exact);
         }
         if (!valid) {
             ++t.skipped;
@@ -1400,24 +1892,31 @@ inline void run_pair(mc::Reporter& r, PairEntry const& e, int range_a, int range
             return;
         }
         ++t.evaluations;
+        bool const a_nz = is_fp(e.fr) ? a.f != 0 : a.i != 0;
+        bool const b_nz = is_fp(e.tr) ? b.f != 0 : b.i != 0;
         if (op < P_FIRST_BINARY) {
             if (any_fp) {
-                if (!same_pd && (is_fp(e.fr) ? a.f != 0 : a.i != 0)) { ++t.nontrivial; }
-            } else if ((i128(a.i) * c.N) % c.D != 0) {
+                if (!same_pd && a_nz) { ++t.nontrivial; }
+            } else if ((ival(a, c.fr) * c.N) % c.D != 0) {
                 ++t.nontrivial;
-                if (op == P_ROUND && 2 * (iabs(i128(a.i) * c.N) % c.D) == c.D) { ++t.ties; }
+                if (op == P_ROUND && 2 * (iabs(ival(a, c.fr) * c.N) % c.D) == c.D) { ++t.ties; }
             }
-        } else if (!same_pd && (is_fp(e.fr) ? a.f != 0 : a.i != 0) && (is_fp(e.tr) ? b.f != 0 : b.i != 0)) {
+        } else if (!same_pd && a_nz && b_nz) {
             ++t.nontrivial;
         }
         if (op < P_FIRST_BINARY) {
             r.outcome(mc::hash_mix(std::uint64_t(op), hash_out(eo)));
         } else { // bounded: results outside [-4096,4096] share one bucket per sign
-            i64 const v = any_fp ? i64(eo.f[0] > 4096 ? 4097 : eo.f[0] < -4096 ? -4097 : eo.f[0] * 4) + eo.i[0]
-                                 : (eo.i[0] > 4096 ? 4097 : eo.i[0] < -4096 ? -4097 : eo.i[0]);
+            i64 v;
+            if (any_fp) {
+                f80 const f = eo.f[0];
+                v           = (f != f ? 5000 : f > 4096 ? 4097 : f < -4096 ? -4097 : i64(f * 4)) + eo.i[0];
+            } else {
+                v = eo.i[0] > 4096 ? 4097 : eo.i[0] < -4096 ? -4097 : eo.i[0];
+            }
             r.outcome(mc::hash_mix(std::uint64_t(op), std::uint64_t(v)));
         }
-        if (!any_fp && (so.i[0] != exact || so.i[1] != 0)) {
+        if (!any_fp && (std::uint64_t(so.i[0]) != std::uint64_t(exact) || so.i[1] != 0)) {
             r.violation("C12", "harness:oracle-disagreement", subject, mk_case(),
                 mc::cat("std ", show_out(so), " exact model ", dec(exact), " etl ", show_out(eo)));
             return;
@@ -1429,13 +1928,16 @@ inline void run_pair(mc::Reporter& r, PairEntry const& e, int range_a, int range
         }
     };
 
-    for (V a : as) {
-        if (r.deadline_passed()) {
+    for (std::size_t k = 0; k < as.size(); ++k) {
+        V const a = as[k];
+        if ((k & 63) == 0 && r.deadline_passed()) {
             r.not_exhaustive("deadline");
             break;
         }
         for (int op = 0; op < P_FIRST_BINARY; ++op) { one(op, a, V{}); }
+        if (k >= n_binary) { continue; }
         for (V b : bs) {
+            if (any_fp) { set_bin(a, b); }
             for (int op = P_FIRST_BINARY; op < P_COUNT; ++op) { one(op, a, b); }
         }
     }
@@ -1455,25 +1957,43 @@ inline void run_pair(mc::Reporter& r, PairEntry const& e, int range_a, int range
     }
 }
 
-inline void run_self(mc::Reporter& r, SelfEntry const& e, int range_a, int range_b)
+inline void run_self(mc::Reporter& r, SelfEntry const& e, Ranges const& rg)
 {
     PeriodInfo const p = period_info(e.pi);
     std::vector<V> as, bs;
     if (is_fp(e.r)) {
-        for (double x : fp_first_operands(range_a)) { as.push_back(V{0, x}); }
-        for (double x : fp_second_operands()) { bs.push_back(V{0, x}); }
+        for (f80 x : fp_first_operands(e.r, rg.a)) { as.push_back(V{0, x}); }
+        for (f80 x : fp_second_operands(e.r)) { bs.push_back(V{0, x}); }
     } else {
         std::vector<i128> v;
-        for (int x = -range_a; x <= range_a; ++x) { v.push_back(x); }
-        add_boundaries(v);
+        int const ra = rg.unary_full > rg.a ? rg.unary_full : rg.a;
+        for (int x = -ra; x <= ra; ++x) { v.push_back(x); }
+        add_boundaries(v, e.r);
         finish_set(v, e.r);
         for (i128 x : v) { as.push_back(V{i64(x), 0}); }
-        for (i128 x : second_operands(e.r, range_b)) { bs.push_back(V{i64(x), 0}); }
+        for (i128 x : second_operands(e.r, rg.b)) { bs.push_back(V{i64(x), 0}); }
     }
-    auto fp_valid = [&](int op, V, V b) {
+    // floating: everything is defined under IEC 60559 except a zero divisor and %; finite
+    // operands whose result leaves 0.999 * max of the rep (overflow) are outside the statement
+    auto fp_valid = [&](int op, V a, V b) {
         if (op == S_MOD_ASSIGN_S || op == S_MOD_ASSIGN_D || op == S_MOD_S) { return false; }
-        if (op == S_DIV_ASSIGN || op == S_DIV_S) { return b.f != 0; }
-        return true;
+        bool const finite = std::isfinite(a.f) && std::isfinite(b.f);
+        f80 const lim     = fp_max(e.r) * 0.999L;
+        switch (op) {
+        case S_DIV_ASSIGN:
+        case S_DIV_S:
+            if (b.f != b.f) { return true; }
+            if (!(b.f != 0)) { return false; }
+            return !finite || std::fabs(a.f / b.f) <= lim;
+        case S_MUL_ASSIGN:
+        case S_MUL:
+        case S_MUL_REV: return !finite || std::fabs(a.f * b.f) <= lim;
+        case S_ADD_ASSIGN:
+        case S_SUB_ASSIGN:
+        case S_TP_ADD_ASSIGN:
+        case S_TP_SUB_ASSIGN: return !finite || std::fabs(a.f) + std::fabs(b.f) <= lim;
+        default: return true;
+        }
     };
     Tally t;
     std::uint64_t gaps[S_COUNT] = {};
@@ -1484,7 +2004,7 @@ inline void run_self(mc::Reporter& r, SelfEntry const& e, int range_a, int range
         if (is_fp(e.r)) {
             valid = fp_valid(op, a, b);
         } else {
-            valid = exact_self(op, e.r, a.i, b.i, exact);
+            valid = exact_self(op, e.r, ival(a, e.r), ival(b, e.r), exact);
         }
         if (!valid) {
             ++t.skipped;
@@ -1509,7 +2029,7 @@ inline void run_self(mc::Reporter& r, SelfEntry const& e, int range_a, int range
         ++t.evaluations;
         if ((is_fp(e.r) ? a.f != 0 : a.i != 0) && (op < S_FIRST_BINARY || (is_fp(e.r) ? b.f != 0 : b.i != 0))) { ++t.nontrivial; }
         r.outcome(mc::hash_mix(std::uint64_t(100 + op), hash_out(eo)));
-        if (!is_fp(e.r) && (so.i[0] != exact[0] || so.i[1] != exact[1])) {
+        if (!is_fp(e.r) && (std::uint64_t(so.i[0]) != std::uint64_t(exact[0]) || std::uint64_t(so.i[1]) != std::uint64_t(exact[1]))) {
             r.violation("C12", "harness:oracle-disagreement", subject, mk_case(),
                 mc::cat("std ", show_out(so), " exact model {", dec(exact[0]), ",", dec(exact[1]), "} etl ", show_out(eo)));
             return;
@@ -1519,12 +2039,18 @@ inline void run_self(mc::Reporter& r, SelfEntry const& e, int range_a, int range
         }
     };
     for (int op = S_ZERO; op < S_FIRST_BINARY; ++op) { one(op, V{}, V{}); }
+    std::size_t k = 0;
     for (V a : as) {
-        if (r.deadline_passed()) {
+        if ((k++ & 63) == 0 && r.deadline_passed()) {
             r.not_exhaustive("deadline");
             break;
         }
         for (int op = 0; op < S_ZERO; ++op) { one(op, a, V{}); }
+        // integer reps: the binary operations run over [-rg.a, rg.a] and the boundaries only
+        if (!is_fp(e.r) && rg.unary_full > rg.a) {
+            i128 const x = iabs(ival(a, e.r));
+            if (x > rg.a && x <= rg.unary_full) { continue; }
+        }
         for (V b : bs) {
             for (int op = S_FIRST_BINARY; op < S_COUNT; ++op) { one(op, a, b); }
         }
